@@ -35,9 +35,10 @@ func s1Shape10(c *vcore.Ctx) *s1Shape {
 	default:
 		sh.opMix = []string{"execve", "execve", "execve", "open", "reset", "symlink"}
 	}
+	sh.bigMsg = src.Bool(1, 5, "shape_refused")
 	sh.kinds = kindSet("container_exit", "wrong_answer", "unexpected_error", "hang", "hang_after_transport_loss", "success_after_transport_loss",
 		"stray_reply", "spurious_kill", "sync_pid", "misaligned", "child_left_running")
-	c.Logf("shape: nops=%d delays=%v cancels=%v close-faults=%v mix=%v", sh.nOps, sh.delays, sh.cancels, sh.faultClose, sh.opMix)
+	c.Logf("shape: nops=%d delays=%v cancels=%v close-faults=%v refused-messages=%v mix=%v", sh.nOps, sh.delays, sh.cancels, sh.faultClose, sh.bigMsg, sh.opMix)
 	return sh
 }
 
@@ -87,8 +88,9 @@ func s1Shape12(c *vcore.Ctx) *s1Shape {
 	sh.faultClose = src.Bool(1, 4, "shape_fault_close")
 	sh.destroyMid = src.Bool(1, 4, "shape_destroy")
 	sh.opMix = []string{"execve", "execve", "execve", "open", "open", "symlink", "delete", "reset", "ping"}
+	sh.bigMsg = src.Bool(1, 6, "shape_refused")
 	sh.kinds = kindSet("fd_leak", "goroutine_leak", "child_left_running", "child_not_reaped")
-	c.Logf("shape: nops=%d cancels=%v close-faults=%v destroy-in-flight=%v", sh.nOps, sh.cancels, sh.faultClose, sh.destroyMid)
+	c.Logf("shape: nops=%d cancels=%v close-faults=%v destroy-in-flight=%v refused-messages=%v", sh.nOps, sh.cancels, sh.faultClose, sh.destroyMid, sh.bigMsg)
 	return sh
 }
 
@@ -98,8 +100,9 @@ func s1Shape14(c *vcore.Ctx) *s1Shape {
 	sh.nOps = 1 + src.Int(8, "nops")
 	sh.faultClose = src.Bool(1, 6, "shape_fault_close")
 	sh.opMix = []string{"open", "open", "open", "symlink", "delete", "ping"}
+	sh.bigMsg = src.Bool(1, 8, "shape_refused")
 	sh.kinds = kindSet("misaligned", "non_regular", "wrong_mode", "not_cloexec", "bad_descriptor", "delete_lied", "unexpected_error", "spurious_item_failure", "hang", "container_exit", "fd_leak")
-	c.Logf("shape: nops=%d delays=%v close-faults=%v", sh.nOps, sh.delays, sh.faultClose)
+	c.Logf("shape: nops=%d delays=%v close-faults=%v refused-messages=%v", sh.nOps, sh.delays, sh.faultClose, sh.bigMsg)
 	return sh
 }
 
